@@ -53,9 +53,7 @@ func bargeRound(senders, perSender int, busyAfter time.Duration, waitMs int) (co
 	sock.Inject(&knxnet.RoutingBusy{WaitTime: time.Duration(waitMs) * time.Millisecond, Control: 1})
 	done := make(chan struct{})
 	go func() { wg.Wait(); close(done) }()
-	select {
-	case <-done:
-	case <-time.After(5*time.Second + time.Duration(waitMs)*time.Millisecond):
+	if !common.WaitLive(done, 5*time.Second+time.Duration(waitMs)*time.Millisecond) {
 		hung = true
 	}
 	r.Close()
